@@ -40,6 +40,12 @@ type Plan struct {
 	// the first PctHorizon decisions (see simcore.Sched.Pct)
 	Pct        int `json:"pct,omitempty"`
 	PctHorizon int `json:"pctHorizon,omitempty"`
+	// Reader: how the bodies handed out by the simulated stores behave as
+	// io.Readers ("plain": like a bytes.Reader; "eof": the last bytes come
+	// together with io.EOF, as HTTP bodies and multipart parts do; "short":
+	// at most a third of the body per Read, the last bytes with io.EOF). All
+	// three are legal Readers. Drawn per run when the engine leaves it empty.
+	Reader string `json:"reader,omitempty"`
 }
 
 // Violation is a property violation found by a run.
